@@ -649,6 +649,45 @@ impl BacktestMarketData for SlowMarketData {
     }
 }
 
+/// which call of `stream()` (counted from the last reset) gets the failing stream
+#[derive(Debug)]
+struct FailCtl {
+    next: std::sync::atomic::AtomicUsize,
+    fail_on: std::sync::atomic::AtomicUsize,
+}
+
+/// A user-style market data source with a corrupt record: the stream of ONE of the backtests
+/// panics after `after` events (the forwarding task dies with a JoinError). A backtest fed by it
+/// must not come back as an ordinary Ok(summary) of a partially fed engine.
+#[derive(Debug, Clone)]
+struct FailingMarketData {
+    inner: MarketDataInMemory<DataKind>,
+    after: usize,
+    ctl: Arc<FailCtl>,
+}
+
+impl BacktestMarketData for FailingMarketData {
+    type Kind = DataKind;
+
+    async fn time_first_event(&self) -> Result<DateTime<Utc>, BarterError> {
+        self.inner.time_first_event().await
+    }
+
+    async fn stream(&self) -> Result<impl Stream<Item = MEvent> + Send + 'static, BarterError> {
+        let inner = Box::pin(self.inner.stream().await?);
+        let call = self.ctl.next.fetch_add(1, Ordering::SeqCst);
+        let failing = call == self.ctl.fail_on.load(Ordering::SeqCst);
+        let after = self.after;
+        Ok(futures::stream::unfold((inner, 0usize), move |(mut inner, n)| async move {
+            if failing && n == after {
+                panic!("corrupt record in the market data source");
+            }
+            let next = inner.next().await?;
+            Some((next, (inner, n + 1)))
+        }))
+    }
+}
+
 #[derive(Debug, Clone)]
 struct PacedMarketData {
     inner: MarketDataInMemory<DataKind>,
@@ -724,6 +763,10 @@ struct Scenario {
     /// of wall-clock (real tokio time) to deliver the dataset, evenly spread over the events
     /// (plain feed only; 0 = MarketDataInMemory as is)
     slow_ms: u64,
+    /// failing source: the market stream handed to backtest number `.0` of a batch (or to that
+    /// backtest when run alone) panics ("corrupt record") after delivering `.1` events; the
+    /// other backtests get healthy streams of the same shared source (plain feed only)
+    fail: Option<(usize, usize)>,
     /// how the backtest ids are formed: 0 "bt<n>", 1 "<n>" (decimal, not padded: "10" < "2"
     /// lexicographically), 2 reverse-sorted, 3 neither sorted nor reverse-sorted, 4 all equal,
     /// 5 twins (2k and 2k+1 share id and parameters)
@@ -804,6 +847,7 @@ impl Scenario {
             "workers": self.workers,
             "ids": self.ids,
             "slow_ms": self.slow_ms,
+            "fail": self.fail.map(|(f, k)| json!([f, k])),
         })
     }
     fn from_json(v: &Value) -> Scenario {
@@ -825,6 +869,9 @@ impl Scenario {
                 .unwrap_or_default(),
             ids: v["ids"].as_u64().unwrap_or(0) as u8,
             slow_ms: v["slow_ms"].as_u64().unwrap_or(0).min(120_000),
+            fail: v["fail"].as_array().and_then(|a| {
+                Some((a.first()?.as_u64()? as usize, a.get(1)?.as_u64()? as usize))
+            }),
         }
     }
     /// id scheme 5: backtests 2k and 2k+1 are twins (same id, parameters, risk-free rate)
@@ -1244,6 +1291,7 @@ fn judge_summary(sum: &BacktestSummary<Daily>, fs: &FinalState, rfr: Decimal) ->
 
 struct Prepared<MD> {
     args: Arc<BacktestArgsConstant<MD, Daily, State>>,
+    fail_ctl: Option<Arc<FailCtl>>,
     slot_index: Vec<usize>,
     no_trade: Vec<usize>,
     n_mocks: usize,
@@ -1389,6 +1437,11 @@ where
     };
     let (dyns, sinks): (Vec<_>, Vec<_>) = bts.iter().map(|&bt| make_dynamic(sc, prep, bt)).unzip();
     let limit = run_timeout(sc);
+    if let (Some(ctl), Some((f, _))) = (&prep.fail_ctl, sc.fail) {
+        ctl.next.store(0, Ordering::SeqCst);
+        ctl.fail_on
+            .store(bts.iter().position(|b| *b == f).unwrap_or(usize::MAX), Ordering::SeqCst);
+    }
     let args = Arc::clone(&prep.args);
     let mut out = vec![];
     if workers == 0 || workers == 1000 {
@@ -1450,6 +1503,7 @@ fn prepare<MD>(b: &Built, md: MD, time_start: DateTime<Utc>) -> Prepared<MD> {
         .trading_state(TradingState::Enabled)
         .build();
     Prepared {
+        fail_ctl: None,
         slot_index: b.slots.iter().map(|s| s.1.index()).collect(),
         no_trade: b.no_trade.clone(),
         n_mocks: b.n_mocks,
@@ -1514,6 +1568,19 @@ fn run_scenario(sc: &Scenario) -> (Vec<String>, Vec<RunObs>, bool) {
     let md = MarketDataInMemory::new(Arc::clone(&shared));
     let runs = if sc.paced {
         run_all(sc, &prepare(&b, PacedMarketData { inner: md }, first))
+    } else if let Some((_, after)) = sc.fail {
+        let ctl = Arc::new(FailCtl {
+            next: std::sync::atomic::AtomicUsize::new(0),
+            fail_on: std::sync::atomic::AtomicUsize::new(usize::MAX),
+        });
+        let failing = FailingMarketData {
+            inner: md,
+            after,
+            ctl: Arc::clone(&ctl),
+        };
+        let mut prep = prepare(&b, failing, first);
+        prep.fail_ctl = Some(ctl);
+        run_all(sc, &prep)
     } else if sc.slow_ms > 0 {
         let slow = SlowMarketData {
             inner: md,
@@ -1665,6 +1732,24 @@ fn render(sc: &Scenario, keys: &[String], runs: &[RunObs], intact: bool) -> (Str
     if sc.slow_ms > 0 {
         tag(&format!("slow_source_{}ms", sc.slow_ms));
     }
+    if let Some((_, k)) = sc.fail {
+        tag(if k == 0 {
+            "failing_source_before_first_event"
+        } else if k + 1 >= sc.events.len() {
+            "failing_source_before_last_event"
+        } else {
+            "failing_source_in_the_middle"
+        });
+        for r in runs {
+            tag(match (r.workers, r.outcome) {
+                (0 | 1000, 1) => "failing_source_alone_returns_err",
+                (0 | 1000, 0) => "failing_source_healthy_sibling_alone_ok",
+                (_, 1) => "failing_source_batch_returns_err",
+                (_, 0) => "failing_source_batch_returns_ok",
+                _ => "failing_source_other_outcome",
+            });
+        }
+    }
     if !intact {
         tag("shared_dataset_modified");
     }
@@ -1694,9 +1779,10 @@ fn render(sc: &Scenario, keys: &[String], runs: &[RunObs], intact: bool) -> (Str
         tag("summary_position_mismatch");
     }
     let coq = format!(
-        "(mkCase {} {} {} {} {} {})",
+        "(mkCase {} {} {} {} {} {} {})",
         b(sc.paced),
         opt(fatal.map(|f| n(f as u128))),
+        b(sc.fail.is_some() && !sc.paced),
         list(&ds_codes.iter().map(|c| z(*c)).collect::<Vec<_>>()),
         b(intact),
         n(sc.params.len() as u128),
@@ -1752,7 +1838,7 @@ fn emit_computed(em: &mut Emitter, stream: &'static str, sc: &Scenario, computed
         em.emit(Case {
             stream,
             input: sc.to_json(),
-            coq: "(mkCase false None [] true 0%N [])".to_string(),
+            coq: "(mkCase false None false [] true 0%N [])".to_string(),
             nontrivial: false,
             tags: vec!["not_judged_execution_request_timeout".into()],
         });
@@ -1897,6 +1983,7 @@ fn gen_scenario(r: &mut Rng, paced: bool, max_ev: usize, max_bt: usize, adversar
         workers: if r.chance(1, 3) { vec![1000, 99, 2, 8] } else { vec![1, 2, 8] },
         ids: *r.pick(&[0u8, 0, 1, 1, 2, 3, 4, 5]),
         slow_ms: 0,
+        fail: None,
     }
 }
 
@@ -1945,6 +2032,7 @@ fn gen_burst(r: &mut Rng, i: usize) -> Scenario {
         workers: vec![1000, 99, *r.pick(&[1usize, 2]), 8],
         ids: *r.pick(&[0u8, 1, 2]),
         slow_ms: 0,
+        fail: None,
     }
 }
 
@@ -1973,6 +2061,7 @@ fn gen_big_batch(r: &mut Rng, paced: bool, ids: u8) -> Scenario {
         workers: vec![*r.pick(&[1usize, 2]), 8],
         ids,
         slow_ms: 0,
+        fail: None,
     }
 }
 
@@ -2015,6 +2104,7 @@ fn gen_fatal(r: &mut Rng, max_ev: usize) -> Scenario {
         workers: vec![],
         ids: 0,
         slow_ms: 0,
+        fail: None,
     }
 }
 
@@ -2047,6 +2137,7 @@ fn slow_scenarios(thorough: bool) -> Vec<Scenario> {
         workers,
         ids: 1,
         slow_ms: ms,
+        fail: None,
     };
     let mut v = vec![mk(6_500, 6, 2, vec![2])];
     if thorough {
@@ -2087,6 +2178,7 @@ fn boundary_lengths(em: &mut Emitter, thorough: bool) {
         workers,
         ids: 1,
         slow_ms: 0,
+        fail: None,
     };
     let mut lens = vec![15usize, 16, 17, 31, 32, 63, 64, 65, 127, 128, 129, 192, 255, 256, 257];
     if thorough {
@@ -2144,6 +2236,7 @@ fn table(em: &mut Emitter) {
         workers: vec![1, 2],
         ids: 0,
         slow_ms: 0,
+        fail: None,
     };
     let patterns: Vec<Vec<u8>> = vec![
         vec![0],
@@ -2226,6 +2319,16 @@ fn table(em: &mut Emitter) {
             emit(em, "table", &sc);
         }
     }
+    // failing source: the stream of one backtest panics after 0, 2 or 4 of 5 events; that backtest
+    // alone, its healthy siblings alone, and all together in batches sharing the arguments
+    for k in [0usize, 2, 4] {
+        for (nbt, f) in [(1usize, 0usize), (3, 1)] {
+            let mut sc = base(false, mk(&[0, 1, 0, 0, 1]), nbt);
+            sc.fail = Some((f, k));
+            sc.workers = vec![99, 2];
+            emit(em, "table", &sc);
+        }
+    }
     // twins: backtests 2k and 2k+1 share id, parameters and risk-free rate
     for paced in [false, true] {
         let mut sc = base(paced, mk(&[0, 0, 1, 0, 0]), 6);
@@ -2281,6 +2384,7 @@ fn main() {
             let mut r = Rng::new(args.seed);
             let thorough = args.tier == "thorough";
             let n_big = if thorough { 30 } else { 10 };
+            let n_fail = if thorough { 30 } else { 8 };
             let n_burst = if thorough { 80 } else { 24 };
             let (n_paced, n_plain, n_adv, n_fatal, max_ev, max_bt) =
                 if thorough { (160, 60, 80, 40, 60, 32) } else { (60, 20, 30, 12, 24, 8) };
@@ -2310,6 +2414,13 @@ fn main() {
             for i in 0..n_burst {
                 let sc = gen_burst(&mut r, i);
                 emit(&mut em, "random", &sc);
+            }
+            for _ in 0..n_fail {
+                let mut sc = gen_scenario(&mut r, false, max_ev, 6, false);
+                let f = r.below(sc.params.len() as u64) as usize;
+                let k = r.below(sc.events.len() as u64) as usize;
+                sc.fail = Some((f, k));
+                emit(&mut em, "adversarial", &sc);
             }
             for i in 0..n_big {
                 let sc = gen_big_batch(&mut r, i % 3 != 2, [1u8, 2, 1, 3, 1, 4, 0][i % 7]);
@@ -2369,7 +2480,7 @@ fn main() {
                     em.emit(Case {
                         stream: stream_static(stream),
                         input: inp.clone(),
-                        coq: "(mkCase false None [] true 0%N [])".to_string(),
+                        coq: "(mkCase false None false [] true 0%N [])".to_string(),
                         nontrivial: false,
                         tags: vec!["not_judged_empty".into()],
                     });
